@@ -163,7 +163,7 @@ Definition c01_step (ds : list (N * sdesc)) (m : mon) (o : op) (i : sobs) : bool
   (* a refused attempt ends at once, is announced (outside shutdown), gets no I/O *)
   match admitted_id o with
   | Some id =>
-      if memb id (o_att i) then negb (m_teardown m)      (* nothing is accepted while the previous shell is being torn down *)
+      if memb id (o_att i) then negb (m_teardown m) && negb (m_shut m)   (* nothing is accepted during tear-down of the previous shell, or once shutdown has begun *)
       else memb id (o_ret i) &&
            (m_shut m || existsb (fun x => match x with ONote NRefused s => s =? id | _ => false end) (o_och i)) &&
            negb (existsb (fun w => match w with WWrite s _ | WWriteFail s _ => s =? id | _ => false end) (o_w i))
